@@ -150,6 +150,27 @@ theorem C06_relex_emit (env : Env κ) (inp : Bytes) (c : Common) (l : LexRegs) (
   · exact Or.inl h
   · exact Or.inr ⟨tok', h1, by rw [h2, lexEmitTagLexeme_call]⟩
 
+/-- **C06_relex_same_name.** The name the scanner hints (`LocalName::new(input, tag_name_start..pos,
+tag_name_hash)`, with the scanner's registers as `ScanSem` describes them at `finish_tag_name` on the head
+`H` = `G.H` at position `p`) is the name of the re-lexed tag token (`RelexTag`, lexer restarted at `p`):
+same range of the same chunk, same hash — also for names without a valid hash. -/
+theorem C06_relex_same_name (inp : Bytes) (G : RG) (p : Nat) (s : ScanRegs) (pos : Nat) (l1 : LexRegs)
+    (hsem : ScanSem p G.H s) (hpos : pos = p + G.H.length) (hls : l1.lexemeStart = p) (htag : RelexTag G l1) :
+    ∃ tok, l1.curTag = some tok ∧
+      LocalName.new inp tok.name tok.nameHash = LocalName.new inp ⟨s.tagNameStart, pos⟩ s.tagNameHash := by
+  obtain ⟨tok, htok, hkey, hname⟩ := htag.tag
+  refine ⟨tok, htok, ?_⟩
+  have hh : tok.nameHash = s.tagNameHash := by
+    have : (tagKey tok).2 = (headKey G.H).2 := by rw [hkey]
+    rw [hsem.hash]
+    cases tok <;> exact this
+  have hr : tok.name = ⟨s.tagNameStart, pos⟩ := by
+    rw [hname, hls, hpos]
+    have := hsem.start
+    congr 1
+    omega
+  rw [hh, hr]
+
 /-! ### non-vacuity -/
 
 /-- `x</scr` … in script data, escaped: `<script><!--</script>`: the scanner is in
